@@ -289,6 +289,10 @@ func c04Run(t *testing.T, rep *verifReport, caFixture string, ed bool) {
 		{"nbf+1h", func(c verifClaims) { c["nbf"] = now.Add(time.Hour).Unix() }, sts, map[string]bool{"code": true, "access": true}},
 		{"expired-1h", func(c verifClaims) { c["exp"] = now.Add(-time.Hour).Unix() }, map[string]bool{"session": true, "cli": true, "code": true, "access": true}, map[string]bool{"storage": true}},
 		{"expired-2s", func(c verifClaims) { c["exp"] = now.Add(-2 * time.Second).Unix() }, map[string]bool{"session": true, "cli": true, "code": true, "access": true}, map[string]bool{"storage": true}},
+		// no validity window at all: expiry at the epoch, or the claim left out
+		{"expiry-zero", func(c verifClaims) { c["exp"] = 0 }, map[string]bool{"session": true, "cli": true, "code": true, "access": true}, map[string]bool{"storage": true}},
+		{"expiry-absent", func(c verifClaims) { delete(c, "exp") }, map[string]bool{"session": true, "cli": true, "code": true, "access": true}, map[string]bool{"storage": true}},
+		{"expiry-one", func(c verifClaims) { c["exp"] = 1 }, map[string]bool{"session": true, "cli": true, "code": true, "access": true}, map[string]bool{"storage": true}},
 	}
 	kindOf := map[string]string{}
 	for _, c := range consumers {
